@@ -28,7 +28,9 @@ class MIADistinguisherMixin(_PartitionnedDistinguisherBaseMixin):
             if not a < b:
                 raise ValueError(f'bin_edges must be sorted, but {a} >= {b}.')
         widths = _np.diff(bin_edges)
-        tolerance = max(1e-9 * _np.max(_np.abs(widths)), 4 * _np.finfo('float64').eps * _np.max(_np.abs(bin_edges)))
+        # Edges are uniform up to the rounding of their own dtype (linspace of float32 end points returns float32 edges).
+        eps = _np.finfo(bin_edges.dtype).eps if bin_edges.dtype.kind == 'f' else _np.finfo('float64').eps
+        tolerance = max(1e-9 * _np.max(_np.abs(widths)), 4 * eps * _np.max(_np.abs(bin_edges)))
         if _np.any(_np.abs(widths - _np.mean(widths)) > tolerance):
             raise ValueError('bin_edges must be uniform (i.e with bins equally spaced.')
         self._bin_edges = bin_edges
